@@ -3,6 +3,10 @@
 
    Go anchors (read side by side):
      pkg/kube_events_manager/monitor_config.go  WithEventTypes         -> [with_event_types]
+     pkg/hook/config/config_v1.go               OnKubernetesEventConfigV1.{ExecuteHookOnEvents,WatchEventTypes}
+                                                                       -> [decl]
+                                                HookConfigV1.ConvertAndCheck (event list)
+                                                                       -> [effective_types]
      pkg/filter/jq/apply.go                     ApplyFilter            -> [glue] over the oracle's outputs
      pkg/kube_events_manager/filter.go          applyFilter            -> [apply_filter]
      pkg/utils/checksum/checksum.go             CalculateChecksum      -> equality of the serialised projection
@@ -42,6 +46,39 @@ Definition with_event_types (types : option (list evtype)) : list evtype :=
   match types with
   | None => [Added; Modified; Deleted]
   | Some l => l
+  end.
+
+(* ---- the binding as the USER DECLARES it (hook configuration, configVersion v1) ----
+   pkg/hook/config/config_v1.go, OnKubernetesEventConfigV1: two keys carry an event list,
+       WatchEventTypes     []WatchEventType `json:"watchEvent,omitempty"`          (the deprecated key)
+       ExecuteHookOnEvents []WatchEventType `json:"executeHookOnEvent,omitempty"`
+   The schema (schemas.go, patternProperties "^(watchEvent|executeHookOnEvent)$") allows for
+   either key any array - minItems 0, repetitions allowed - over {Added, Modified, Deleted},
+   and both keys side by side.  HookConfig.ConvertAndCheck unmarshals the text with
+   sigs.k8s.io/yaml (YAML -> JSON -> encoding/json): a key that is PRESENT yields a non-nil
+   slice - also for the empty sequence `[]` -, an ABSENT key leaves the field nil.
+     [d_exec]  = executeHookOnEvent: None = key absent, Some l = key present with list l
+     [d_watch] = watchEvent, likewise. *)
+Record decl := mkDecl {
+  d_exec : option (list evtype);
+  d_watch : option (list evtype)
+}.
+
+(* HookConfigV1.ConvertAndCheck (config_v1.go:133-143), the only writer of
+   MonitorConfig.EventTypes on the way from a v1 hook configuration to the informer:
+       // executeHookOnEvent is a priority
+       if kubeCfg.ExecuteHookOnEvents != nil { monitor.WithEventTypes(kubeCfg.ExecuteHookOnEvents)
+       } else { if kubeCfg.WatchEventTypes != nil { monitor.WithEventTypes(kubeCfg.WatchEventTypes)
+                } else { monitor.WithEventTypes(nil) } }
+   `!= nil`, not `len(..) != 0`: the empty list is a value of its own. *)
+Definition effective_types (d : decl) : list evtype :=
+  match d_exec d with
+  | Some l => with_event_types (Some l)
+  | None =>
+      match d_watch d with
+      | Some w => with_event_types (Some w)
+      | None => with_event_types None
+      end
   end.
 
 (* the part of MonitorConfig that matters here *)
